@@ -41,6 +41,8 @@ TP = os.environ.get("XH_TP", "0") in ("1", "2")  # C14: pass a transform_physica
 TP_COPY = os.environ.get("XH_TP", "0") == "2"  # ... and returns a transformed COPY instead of working in place
 RPLAN = os.environ.get("XH_RPLAN", "scoped")  # render: which plan
 VERBOSE = os.environ.get("XH_VERBOSE", "1") == "1"
+SWAP = os.environ.get("XH_SWAP", "0") == "1"  # C14: the dry run and the real run are scheduled differently (stand-in order lifo vs fifo)
+EXTRA = os.environ.get("XH_EXTRA", "0") == "1"  # the registry also holds an entry for a node that is not in the plan being run
 
 
 def _tracing():
@@ -321,6 +323,8 @@ def output_spec(b, sh, kind):
         return None
     if kind == "const":
         return 7  # a plain constant: no symbolic node in the requested output
+    if kind.startswith("inner"):
+        return b.nodes[int(kind[5:])]  # an inner node: the requested output also feeds nodes further down (which run if out of date)
     if kind == "struct":
         last = b.nodes[sh.n - 1]
         first = b.nodes[sh.out if sh.out is not None else 0]
@@ -399,6 +403,10 @@ def c13_run_reg(p0: bool, t0: int, p1: bool, t1: int, p2: bool, t2: int, p3: boo
     b = W.build(sh, w, P, TT)
     assign_scopes(b)
     out = output_spec(b, sh, OUT)
+    if EXTRA:
+        # one registry shared by this plan and a larger one (e.g. an extended Plan.copy): an entry for a node this plan does not have
+        other = uberjob.Plan()
+        b.reg.add(other.call(W.mk_fn("x", w)), W.LStore("x", False, 0, None, w))
     g = Guard()
     guard_plan(b.plan, g)
     guard_registry(b.reg, g)
@@ -408,6 +416,8 @@ def c13_run_reg(p0: bool, t0: int, p1: bool, t1: int, p2: bool, t2: int, p3: boo
     r = _unchanged(g, [(s_plan, snap_plan, diff_plan, b.plan, "plan"), (s_reg, snap_reg, diff_reg, b.reg, "registry")])
     if r is not None:
         return _fail(r)
+    if EXTRA and isinstance(o, str):
+        return ok()  # however run treats the foreign entry (the pinned source rejects it with an error): succeeding or failing, nothing changed
     if isinstance(o, str):
         return _fail(o)
     if o.kind == "not_transformed":
@@ -746,7 +756,12 @@ def c14_dry(p0: bool, t0: int, p1: bool, t1: int, p2: bool, t2: int, p3: bool, t
     kwb = {"transform_physical": _marker_tp(wb, seen_b)} if TP else {}
     pre_a = [(s.present, s.t, s.val) if s is not None else None for s in A.stores]
     # ---- (1) the dry run touches nothing
+    order0 = W.ORDER
+    if SWAP:
+        W.ORDER = "lifo"  # "what the run would do" may not depend on how the stale check happens to be scheduled
     d = call_run(outa, A.plan, registry=A.reg, output=outa, dry_run=True, fresh_time=fresh, **kwa)
+    if SWAP:
+        W.ORDER = "fifo"
     if isinstance(d, str):
         return _fail("dry run: " + d)
     if d.kind != "ok":
@@ -781,6 +796,7 @@ def c14_dry(p0: bool, t0: int, p1: bool, t1: int, p2: bool, t2: int, p3: bool, t
     if dchg is not None:
         return _fail("running the dry-run plan modified it: " + str(dchg))
     eb = call_run(outb, B.plan, registry=B.reg, output=outb, fresh_time=fresh, **kwb)
+    W.ORDER = order0
     if isinstance(ea, str):
         return _fail("executing the dry-run plan: " + ea)
     if isinstance(eb, str):
